@@ -100,6 +100,7 @@ type Unit struct {
 	loops    map[*ssa.Function]*loopInfo
 	start    time.Time
 	curFn    []*ssa.Function
+	frames   []*Frame
 	specMode int
 	uf       map[string]bool
 	binder   int
@@ -120,6 +121,8 @@ type Unit struct {
 	cellByID map[int]*Cell
 	divMemo  map[string]divEntry
 	eqFacts  []eqFact
+	seqFacts []*seqFact
+	seqByName map[string]*seqFact
 	goalMode int
 	reads    map[string][]readRec
 	instDepth int
@@ -448,6 +451,7 @@ func (u *Unit) assume(t *Term) {
 		return
 	}
 	u.S.Assert(t)
+	u.activateWitnesses(t)
 }
 
 // feasible: can cond hold on the current path?  unknown counts as feasible.
